@@ -83,6 +83,7 @@ def run(tier, seed, replay=None):
         return True
 
     cpc_l1 = []
+    el_cases = []
     # ---------------------------------------------------------------- sections, corners, edges, faces, const_par_curve
     for it in range(reps):
         pd = rng.choice([1, 2, 2, 3, 3])
@@ -250,6 +251,17 @@ def run(tier, seed, replay=None):
             fail('edge_curves 2', args, 'raised %s' % type(e_).__name__)
         # four curves: the boundary of a random surface, rotated / reversed / re-represented
         s = gen(2, rational=rng.random() < 0.3, dim=rng.choice([2, 3]))
+        degenerate = rng.random() < 0.25
+        if degenerate:
+            # a triangular patch: one edge collapsed to a point, so two corners of the loop coincide (a greedy search for
+            # "the curve that continues here" can then pick the wrong one of two candidates)
+            n0_, n1_ = O.nfun(s['bases'][0]), O.nfun(s['bases'][1])
+            which_ = rng.randrange(4)
+            idx_ = {0: [i_ * n1_ for i_ in range(n0_)], 1: [i_ * n1_ + n1_ - 1 for i_ in range(n0_)],
+                    2: list(range(n1_)), 3: [(n0_ - 1) * n1_ + j_ for j_ in range(n1_)]}[which_]
+            for k_ in idx_:
+                s['cps'][k_] = list(s['cps'][idx_[0]])
+            s['ctor'] = 'raw'
         so = O.make_impl(s)
         e = so.edges()                      # umin(v), umax(v), vmin(u), vmax(u)
         loop = [e[2].clone(), e[1].clone(), e[3].clone().reverse(), e[0].clone().reverse()]   # bottom, right, top (reversed), left (reversed)
@@ -272,7 +284,7 @@ def run(tier, seed, replay=None):
             rest = order[1:]
             rng.shuffle(rest)
             order = [0] + rest
-        args = dict(surface=O.spec_json(s), rotation=rot, reversed=flipped, order=order)
+        args = dict(surface=O.spec_json(s), rotation=rot, reversed=flipped, order=order, degenerate_edge=degenerate)
         nontriv.add(C.case_hash(args))
         try:
             given = [loop[i] for i in order]
@@ -280,6 +292,16 @@ def run(tier, seed, replay=None):
             res = sf.edge_curves([c for c in given])
             count('edge_curves 4', rational=s['rational'])
             re_ = res.edges()
+            # L1 (Model/EdgeLoop.v loop_order2): the end points the routine compares (stored control points after
+            # make_splines_compatible), through the model of the search; its arrangement must be the one realised
+            comp_ = [c.clone() for c in given]
+            for i_ in range(4):
+                for j_ in range(i_ + 1, 4):
+                    Curve.make_splines_compatible(comp_[i_], comp_[j_])
+            from splipy import state as st_
+            el_cases.append(dict(args=args, given=given, edges=re_, line='edge_loop %s %s 4 %s' % (
+                C.qs(st_.controlpoint_relative_tolerance), C.qs(st_.controlpoint_absolute_tolerance),
+                ' '.join('%s %s' % (C.qlist(np.asarray(c_[0]).reshape(-1)), C.qlist(np.asarray(c_[-1]).reshape(-1))) for c_ in comp_))))
             for c in loop:
                 if not any(same_map(c, x) or same_map(c, x, rev=[0]) for x in re_):
                     fail('edge_curves 4', args, 'an input curve is not an edge of the Coons patch')
@@ -311,6 +333,21 @@ def run(tier, seed, replay=None):
                         break
             except Exception as e_:  # noqa
                 fail('edge_surfaces', args, 'raised %s' % type(e_).__name__)
+        # two independent surfaces: any mix of rationality, orders, knot vectors and physical dimension, either one first
+        sa_, sb_ = gen(2, rational=rng.random() < 0.5, dim=rng.choice([2, 3])), gen(2, rational=rng.random() < 0.5, dim=rng.choice([2, 3]))
+        fa_, fb_ = O.make_impl(sa_), O.make_impl(sb_)
+        args = dict(surfaces=[O.spec_json(sa_), O.spec_json(sb_)])
+        nontriv.add(C.case_hash(args))
+        try:
+            r2 = vf.edge_surfaces(fa_.clone(), fb_.clone()) if rng.random() < 0.5 else vf.edge_surfaces([fa_.clone(), fb_.clone()])
+            count('edge_surfaces 2 independent', rational=(sa_['rational'], sb_['rational']))
+            f2 = r2.faces()
+            if not (same_map(f2[4], fa_) and same_map(f2[5], fb_)):
+                fail('edge_surfaces 2', args, 'the w-faces of the volume are not the two input surfaces')
+            elif not same_map(r2.section(w=0), fa_) or not same_map(r2.section(w=-1), fb_):
+                fail('edge_surfaces 2', args, 'the sections w=0 / w=-1 of the volume are not the two input surfaces')
+        except Exception as e_:  # noqa
+            fail('edge_surfaces 2', args, 'raised %s' % type(e_).__name__)
 
     # ---------------------------------------------------------------- extrude / thicken contain their generator
     for it in range(reps):
@@ -378,6 +415,23 @@ def run(tier, seed, replay=None):
 
     # ---------------------------------------------------------------- L1: sections vs the extracted model
     corr_bad = C.Corr()
+
+    # ---------------------------------------------------------------- L1: the four-curve loop search vs Model/EdgeLoop.v
+    if el_cases:
+        outs_ = C.run_model([c_['line'] for c_ in el_cases])
+        for c_, tk in zip(el_cases, outs_):
+            count('L1 edge_loop')
+            if tk.word() != 'Ok':
+                corr_bad += {'what': 'L1: edge_curves accepted four curves for which the model of the loop search raises', 'op': 'edge_curves 4', 'args': c_['args']}
+                continue
+            arr_ = tk.list(lambda: (tk.int(), tk.int()))
+            e_ = c_['edges']            # umin, umax, vmin, vmax
+            slots_ = [(e_[2], False), (e_[1], False), (e_[3], True), (e_[0], True)]     # bottom, right, top (reversed), left (reversed)
+            for (i_, f_), (edge_, rev_) in zip(arr_, slots_):
+                if not same_map(c_['given'][i_], edge_, rev=([0] if bool(f_) != rev_ else None)):
+                    corr_bad += {'what': 'L1: edge_curves arranged the four curves differently from the model of the loop search (model: %s)' % (arr_,),
+                                 'op': 'edge_curves 4', 'args': c_['args']}
+                    break
     lines = []
     for kind, spec, sel, snap in l1[: (150 if tier == 'quick' else 100000)]:
         lines.append('obj_section %s %s' % (O.obj_tokens(spec), C.ilist([2 if s is None else (0 if s == 0 else 1) for s in sel])))
